@@ -2,29 +2,35 @@ import GGV.Run.ISet
 import GGV.Run.Excerpt
 import GGV.Run.Config
 import GGV.Run.Grammar
-/-! `ggmodel`: one request per line `<id> <suite> <op> <args…>`, one reply per line `<id> <result>`. -/
+import GGV.Run.Apf
+/-! `ggmodel`: one request per line `<id> <suite> <op> <args…>`, one reply per line `<id> <result>`.
+    The `apf` suite is stateful (configuration + facts of the packages seen so far). -/
 open GGV.Run
 
-def dispatch (suite op : String) (args : List String) : String :=
+def dispatch (s : Session) (suite op : String) (args : List String) : Session × String :=
   match suite with
-  | "iset" => isetSuite op args
-  | "excerpt" => excerptSuite op args
-  | "cfg" => cfgSuite op args
-  | "gram" => gramSuite op args
-  | _ => "bad-suite"
+  | "iset" => (s, isetSuite op args)
+  | "excerpt" => (s, excerptSuite op args)
+  | "cfg" => (s, cfgSuite op args)
+  | "gram" => (s, gramSuite op args)
+  | "apf" => apfSuite s op args
+  | _ => (s, "bad-suite")
 
-partial def loop (hin : IO.FS.Stream) (hout : IO.FS.Stream) : IO Unit := do
+partial def loop (hin : IO.FS.Stream) (hout : IO.FS.Stream) (s : Session) : IO Unit := do
   let line ← hin.getLine
   if line.isEmpty then return ()
   let line := String.ofList (line.toList.filter (fun c => c != '\n' && c != '\r'))
   match line.splitOn " " with
   | id :: suite :: op :: args =>
-    hout.putStrLn (id ++ " " ++ dispatch suite op args)
-  | _ => hout.putStrLn "? bad-line"
-  loop hin hout
+    let (s', out) := dispatch s suite op args
+    hout.putStrLn (id ++ " " ++ out)
+    loop hin hout s'
+  | _ =>
+    hout.putStrLn "? bad-line"
+    loop hin hout s
 
 def main : IO Unit := do
   let hin ← IO.getStdin
   let hout ← IO.getStdout
-  loop hin hout
+  loop hin hout {}
   hout.flush
